@@ -2,7 +2,7 @@
 get_statuses(time=tmin) of every SIR/SIS simulator and wrapper, over all calling conventions; both-given => EoNError;
 initially recovered nodes are never infected later; wrappers start the same epidemic as the function they wrap."""
 from fractions import Fraction as F
-import common, allsims, predchecks
+import common, allsims, predchecks, inithist
 from predchecks import strip
 from allsims import SIR
 
@@ -36,16 +36,21 @@ def both_given(ctx):
                 f(dict(kw))
                 ctx.violation("%s accepted both rho and initial_infecteds (%s)" % (name, kw), rep)
             except Exception as e:
+                nodes = kw["initial_infecteds"] if isinstance(kw["initial_infecteds"], list) else [kw["initial_infecteds"]]
+                m = ctx.drv.batch([dict(op="norminit", n=4, tape=[], init=dict(kind="both", nodes=nodes, rho=str(F(kw["rho"]))))])[0]
+                if m.get("err") != "EoNError":
+                    ctx.disagreement("norminit-both", dict(rep, model=m))
                 if type(e).__name__ != "EoNError":
                     ctx.violation("%s raised %s instead of EoNError for both rho and initial_infecteds (%s)" % (name, type(e).__name__, kw),
                                   dict(rep, error=type(e).__name__))
 
 
 def run(ctx):
-    drv = common.LeanDriver()
+    drv = ctx.drv = common.LeanDriver()
     both_given(ctx)
     per = ctx.scale(120, 600)
     reqs, metas = [], []
+    nreqs, nmetas = [], []
     for sim in SIMS:
         for k in range(per):
             c = allsims.gen_case(ctx.rng, sim)
@@ -70,6 +75,8 @@ def run(ctx):
             if infs is None:
                 ctx.disagreement("no-sample-call", rep)
                 continue
+            nreqs.append(inithist.norminit_requests(c, out))
+            nmetas.append((rep, infs))
             if c["init"]["kind"] == "rho":
                 want = int(round(G.order() * float(F(c["init"]["rho"]))))
                 if len(infs) != want or len(set(infs)) != len(infs):
@@ -91,6 +98,37 @@ def run(ctx):
             else:
                 row0 = [col[0] for col in out["cols"]]
                 status = None
+                # the same call in full-data mode on the same draws (the recorded-infector choice of the discrete
+                # simulators is the only extra draw): same final counts, initially recovered nodes never infected
+                disc = "discrete" in sim
+                whole = c["tmax"] == "inf" or (F(c["tmax"]) - F(c["tmin"])).denominator == 1
+                if (disc and sim != "discrete_SIR") or (disc and not whole):
+                    # the p-based wrappers legitimately consume different draws in the two modes (full-data mode tests
+                    # every infectious neighbour to record the possible infectors); fractional horizons: see C04
+                    ctx.count("cross-mode:skipped")
+                    other = None
+                else:
+                    other, _, _ = allsims.run_impl(c, tape=out["tape"], rng=ctx.rng, full=True, free_choice=disc)
+                    if other["ok"] and allsims.zero_delay_at_tmin(c, other):
+                        ctx.count("cross-mode:skipped")
+                        other = None
+                if other is None:
+                    pass
+                elif not other["ok"]:
+                    ctx.violation("%s: full-data mode raised %s on the draws the array mode consumed" % (sim, other["err"]), dict(rep, tb=other.get("tb")))
+                    continue
+                else:
+                    ctx.count("cross-mode:compared")
+                    last = [col[-1] for col in out["cols"]]
+                    olast = [col[-1] for col in other["summary"]["cols"]]
+                    if last != olast or [col[0] for col in other["summary"]["cols"]] != row0:
+                        ctx.violation("%s: array mode and full-data mode of the same call differ (first/last rows)" % sim,
+                                      dict(rep, array_mode=dict(times=out["times"], cols=out["cols"]), full_mode=other["summary"]))
+                        continue
+                    bad = [v for v in recs if any(s_ == "I" for _, s_ in other["history"][v])]
+                    if bad:
+                        ctx.violation("%s: initially recovered node infected later" % sim, dict(rep, nodes=bad))
+                        continue
             if any(isinstance(x, str) for x in row0):
                 ctx.violation("%s: non-integer counts in row 0" % sim, dict(rep, row0=row0))
                 continue
@@ -103,3 +141,7 @@ def run(ctx):
         elif not r["holds"]:
             ctx.violation("%s does not start from the requested initial condition" % rep["entry"],
                           dict(rep, row0=row0, status_at_tmin=status, requested_infected=rq["infs"], requested_recovered=rq["recs"]))
+    for (rep, infs), r in zip(nmetas, drv.batch(nreqs)):
+        ctx.count("norminit:%s" % rep["case"]["init"]["kind"])
+        if not r.get("ok") or r["infs"] != list(infs):
+            ctx.disagreement("norminit", dict(rep, impl=list(infs), model=r))
